@@ -440,7 +440,7 @@ MIRI = {"engine": "miri", "seeds": (0, 32)}
 LAWS = {"engine": "laws", "build": "all", "args": ([], []), "timeout": (120, 120)}
 
 PLANS = {
-    "C01": [M(["general"], 6, 60), S(["traffic", "backpressure", "refs"], 18000, 150000, mode="diff"), S(["traffic", "backpressure", "kill"], 9000, 60000, build="none", seed_off=1000)],
+    "C01": [M(["general"], 6, 60), S(["traffic", "backpressure", "refs"], 18000, 150000, mode="diff"), S(["timeouts", "backpressure"], 12000, 100000, seed_off=2000), S(["traffic", "backpressure", "kill"], 9000, 60000, build="none", seed_off=1000)],
     "C02": [M(["general", "blocking"], 6, 60), S(["traffic", "backpressure", "idle"], 18000, 150000, mode="diff"), S(["traffic", "backpressure"], 9000, 60000, build="none", seed_off=1000)],
     "C03": [M(["tightrace"], 12, 150, fp_quick=True), M(["deathrace", "general"], 6, 60), S(["traffic", "lifecycle", "kill", "faults", "timeouts"], 12000, 100000, mode="diff"), S(["kill", "lifecycle", "backpressure"], 9000, 60000, build="none", seed_off=1000)],
     "C04": [S(["lifecycle", "kill", "faults"], 18000, 150000), S(["lifecycle", "kill"], 9000, 60000, build="none", seed_off=1000)],
